@@ -14,6 +14,7 @@ import sys
 REPO = os.environ.get("RVERIF_REPO", "/repo")
 MODS = ["rsome.subroutines", "rsome.lp", "rsome.socp", "rsome.gcp", "rsome.ro", "rsome.dro", "rsome.math",
         "rsome.eco_solver", "rsome.ort_solver"]
+OPTIONAL = ["rsome.grb_solver"]
 NAMES = ("np", "sp", "csr_matrix", "coo_matrix", "lil_matrix")
 
 _saved = {}
@@ -26,6 +27,11 @@ def import_rsome():
     mods = {}
     for m in MODS:
         mods[m] = importlib.import_module(m)
+    for m in OPTIONAL:                      # interfaces whose solver package may be absent
+        try:
+            mods[m] = importlib.import_module(m)
+        except Exception:
+            pass
     f = mods["rsome.lp"].__file__
     if not os.path.realpath(f).startswith(os.path.realpath(REPO) + os.sep):
         raise RuntimeError(f"rsome imported from {f}, not from {REPO}")
